@@ -57,6 +57,17 @@ def make_note(rng, api):
         class TaggedNote(api.Note):
             tag = "app"
         cls = TaggedNote
+        if rng.random() < 0.5:
+            # ... one that says of itself whether it holds anything (an empty cell is falsy, has length 0)
+            class SizedNote(api.Note):
+                def __bool__(self):
+                    return not self.is_empty()
+
+                def __len__(self):
+                    return 0 if self.is_empty() else 1
+            cls = SizedNote
+            if rng.random() < 0.5:
+                return cls()            # an empty cell, supplied to blank what was there
     return cls(note=NOTECMD(rng.choice(vals)), vel=rng.randint(0, 129), module=rng.randrange(65536),
                     ctl=rng.randrange(65536), val=rng.randrange(65536))
 
